@@ -6,7 +6,8 @@
    is the parser after the schedule, [out] the key presses emitted so far
    (key, data), [pending] = (open paste: start mark ++ paste buffer) ++ prefix. *)
 From Coq Require Import ZArith List Bool.
-From PTK Require Import Lib.Sx Lib.Py Gen.C03_AnsiSequences Model.C03_Vt100Parser Model.C03_Vt100Input
+From PTK Require Import Lib.Sx Lib.Py Lib.C03_Regex Gen.C03_AnsiSequences Gen.C03_Regexes
+  Model.C03_Vt100Parser Model.C03_Vt100Input Model.C03_Cache Proofs.C03_Regex Proofs.C03_Cache
   Proofs.C03_Table Proofs.C03_Process Proofs.C03_Feed Proofs.C03_Lossless Proofs.C03_Main Proofs.C03_Input Proofs.C03_Shift.
 Import ListNotations.
 Open Scope Z_scope.
@@ -116,6 +117,20 @@ Theorem C03_shift_break_equiv_first_pass_partial : forall st q c,
 Proof. exact first_pass_break_equiv. Qed.
 Print Assumptions C03_shift_break_equiv_first_pass_partial.
 
+(* What the loop without a break does in general (any table, any state, whatever
+   was found before): longest match first, repeatedly, with a decreasing length
+   bound - after emitting the longest matching slice (length i) it goes on with
+   the remainder and the bound i - 1, so a second key press in the same pass is
+   the longest matching slice of length < i of the remainder. *)
+Theorem C03_shift_loop_bounded_longest_first : forall n i st found ks,
+  (1 <= i <= n)%nat ->
+  (forall j, (i < j <= n)%nat -> get_match (firstn j (prefix st)) = None) ->
+  get_match (firstn i (prefix st)) = Some ks ->
+  match_loop n st found =
+  match_loop (i - 1) (set_prefix (skipn i (prefix st)) (call_handler ks (firstn i (prefix st)) st)) true.
+Proof. exact match_loop_unfold. Qed.
+Print Assumptions C03_shift_loop_bounded_longest_first.
+
 (* After a flush nothing remains buffered except an unterminated bracketed
    paste: in EVERY state the coroutine's prefix is empty after flush() (the
    flush flag is kept across the retries since fix e3d939f) ... *)
@@ -196,6 +211,80 @@ Theorem C03_bytes_chunk_independent : forall before chunks after,
   vcore (fst r1) = vcore (fst r2) /\ concat (snd r1) = concat (snd r2).
 Proof. exact bytes_chunk_independent. Qed.
 Print Assumptions C03_bytes_chunk_independent.
+
+(* ---------------------------------------------------------------------- *)
+(* The four hard-coded regexes.  ast_* are regenerated from /repo's pattern
+   strings by re's own parser (Gen/C03_Regexes.v); [matches r s] is the
+   standard whole-string language semantics (Proofs/C03_Regex.v).  The hand
+   recognisers used by the model accept exactly those languages, for ALL
+   strings. *)
+Theorem C03_cpr_re_is_regex : forall p, cpr_re p = true <-> matches ast_cpr_response_re p.
+Proof. exact cpr_re_regex. Qed.
+Print Assumptions C03_cpr_re_is_regex.
+
+Theorem C03_mouse_re_is_regex : forall p, mouse_re p = true <-> matches ast_mouse_event_re p.
+Proof. exact mouse_re_regex. Qed.
+Print Assumptions C03_mouse_re_is_regex.
+
+Theorem C03_cpr_prefix_re_is_regex : forall p, cpr_prefix_re p = true <-> matches ast_cpr_response_prefix_re p.
+Proof. exact cpr_prefix_re_regex. Qed.
+Print Assumptions C03_cpr_prefix_re_is_regex.
+
+Theorem C03_mouse_prefix_re_is_regex : forall p, mouse_prefix_re p = true <-> matches ast_mouse_event_prefix_re p.
+Proof. exact mouse_prefix_re_regex. Qed.
+Print Assumptions C03_mouse_prefix_re_is_regex.
+
+(* ---------------------------------------------------------------------- *)
+(* The process-wide memo table _IS_PREFIX_OF_LONGER_MATCH_CACHE
+   (Model/C03_Cache.v): after ANY history of queries from the empty table the
+   cached answer is the recomputed answer ... *)
+Theorem C03_cache_answer_is_recomputed : forall history p,
+  fst (cache_query p (query_all history [])) = is_prefix_longer p.
+Proof. exact cached_is_recomputed. Qed.
+Print Assumptions C03_cache_answer_is_recomputed.
+
+(* ... and the coroutine with a coherent table threaded through computes what
+   the table-free model computes and leaves the table coherent (so the model's
+   direct use of is_prefix_longer is a refinement of the code with the dict) ... *)
+Theorem C03_cache_transparent : forall fuel fl st c,
+  Coherent c ->
+  fst (process_c fuel fl st c) = process fuel fl st /\ Coherent (snd (process_c fuel fl st c)).
+Proof. exact process_c_correct. Qed.
+Print Assumptions C03_cache_transparent.
+
+(* ... while coherence is a real obligation: one wrong entry changes the keys. *)
+Theorem C03_cache_poisoned_differs :
+  fst (send_char_c 27 init [([27], false)]) <> send_char 27 init.
+Proof. exact poisoned_cache_differs. Qed.
+Print Assumptions C03_cache_poisoned_differs.
+
+(* ---------------------------------------------------------------------- *)
+(* PosixStdinReader.read(): over any sequence of calls (select not ready /
+   ready / error; os.read data / end of file / error; calls after closing) the
+   text handed out is the decoding of exactly the bytes taken from the
+   descriptor, in order - none lost, none duplicated - and the reader's
+   undecoded tail is the tail of that decoding. *)
+Theorem C03_reader_conservation : forall calls,
+  let x := reader_run calls rinit in
+  snd (fst x) = dout (dec (snd x)) /\ rpend (fst (fst x)) = dpend (dec (snd x)).
+Proof.
+  intros calls. destruct (reader_run_conservation calls rinit) as (A & B & _); [reflexivity|].
+  cbv zeta in *. cbn [rinit rpend app] in A, B. auto.
+Qed.
+Print Assumptions C03_reader_conservation.
+
+(* End of file closes the reader; a closed reader returns "" and takes nothing, for ever. *)
+Theorem C03_reader_eof : forall s st,
+  rclosed st = false -> s <> SelNotReady ->
+  rclosed (fst (fst (reader_read s (RdData []) st))) = true /\
+  snd (fst (reader_read s (RdData []) st)) = [] /\ snd (reader_read s (RdData []) st) = [].
+Proof. exact reader_eof_closes. Qed.
+Print Assumptions C03_reader_eof.
+
+Theorem C03_reader_closed_is_absorbing : forall calls st,
+  rclosed st = true -> reader_run calls st = (st, [], []).
+Proof. exact reader_run_closed. Qed.
+Print Assumptions C03_reader_closed_is_absorbing.
 
 (* Non-vacuity: the table has multi-key entries without BracketedPaste. *)
 Example C03_table_has_tuples :
